@@ -132,33 +132,20 @@ func builtinGlobalParseInt(call FunctionCall) Value {
 	return int64Value(value)
 }
 
-var (
-	parseFloatMatchBadSpecial = regexp.MustCompile(`[\+\-]?(?:[Ii]nf$|infinity)`)
-	parseFloatMatchValid      = regexp.MustCompile(`[0-9eE\+\-\.]|Infinity`)
-)
+// parseFloatPrefix matches the longest prefix that is a StrDecimalLiteral (ES5 9.3.1).
+var parseFloatPrefix = regexp.MustCompile(`^[+-]?(?:Infinity|(?:[0-9]+\.?[0-9]*|\.[0-9]+)(?:[eE][+-]?[0-9]+)?)`)
 
 func builtinGlobalParseFloat(call FunctionCall) Value {
-	// Caveat emptor: This implementation does NOT match the specification
-	input := strings.Trim(call.Argument(0).string(), builtinStringTrimWhitespace)
-
-	if parseFloatMatchBadSpecial.MatchString(input) {
+	// 15.1.2.3: leading white space is stripped, the longest prefix that is a
+	// StrDecimalLiteral is converted, NaN if there is none.
+	input := strings.TrimLeft(call.Argument(0).string(), builtinStringTrimWhitespace)
+	literal := parseFloatPrefix.FindString(input)
+	if literal == "" {
 		return NaNValue()
 	}
-	value, err := strconv.ParseFloat(input, 64)
-	if err != nil {
-		for end := len(input); end > 0; end-- {
-			val := input[0:end]
-			if !parseFloatMatchValid.MatchString(val) {
-				return NaNValue()
-			}
-			value, err = strconv.ParseFloat(val, 64)
-			if err == nil {
-				break
-			}
-		}
-		if err != nil {
-			return NaNValue()
-		}
+	value, err := strconv.ParseFloat(literal, 64)
+	if err != nil && !errors.Is(err, strconv.ErrRange) {
+		return NaNValue()
 	}
 	return float64Value(value)
 }
